@@ -109,31 +109,39 @@ impl Monitor for M {
             (Ok(None), Some(_)) => ctx.violation("load.must_succeed", &format!("files={}", layout.files.len()), || detail("loading failed although every reference resolves".into())),
             (Ok(Some(g)), Some(e)) => {
                 let mut ok = true;
-                if g.frame_map != e.frame_map {
+                // the returned maps, re-keyed by plain strings / tuples: the comparison must not depend
+                // on the crate's own Eq / Hash of its key type
+                let g_frames: std::collections::BTreeMap<String, &dlt_core::fibex::FrameMetadata> = g.frame_map.iter().map(|(k, v)| (k.clone(), v)).collect();
+                let g_keyed: std::collections::BTreeMap<(String, String, String), &dlt_core::fibex::FrameMetadata> =
+                    g.frame_map_with_key.iter().map(|(k, v)| ((k.context_id.clone(), k.app_id.clone(), k.frame_id.clone()), v)).collect();
+                if g_frames.len() != g.frame_map.len() || g_keyed.len() != g.frame_map_with_key.len() {
+                    ok = false;
+                    ctx.violation("model.duplicate_keys", "map", || detail("the returned map holds two entries with the same key text".into()));
+                }
+                let frames_equal = g_frames.len() == e.frame_map.len() && e.frame_map.iter().all(|(k, v)| g_frames.get(k).map_or(false, |gv| same_frame(gv, v)));
+                if !frames_equal {
                     ok = false;
                     // find the first differing aspect for the signature
                     let mut what = "frame_map.keys".to_string();
                     for (k, v) in &e.frame_map {
-                        match g.frame_map.get(k) {
+                        match g_frames.get(k) {
                             None => {
                                 what = "frame_map.missing_frame".into();
                                 break;
                             }
-                            Some(gv) if gv != v => {
+                            Some(gv) if !same_frame(gv, v) => {
                                 what = if gv.short_name != v.short_name {
                                     "frame.short_name"
                                 } else if gv.pdus.len() != v.pdus.len() {
                                     "frame.pdu_count"
-                                } else if gv.pdus != v.pdus {
-                                    if gv.pdus.iter().zip(&v.pdus).any(|(a, b)| a.description != b.description) {
-                                        "frame.pdus.order_or_description"
-                                    } else {
-                                        "frame.pdus.signal_types"
-                                    }
                                 } else if gv.application_id != v.application_id || gv.context_id != v.context_id {
                                     "frame.app_or_context"
-                                } else {
+                                } else if gv.message_type != v.message_type || gv.message_info != v.message_info {
                                     "frame.message_type_or_info"
+                                } else if gv.pdus.iter().zip(&v.pdus).any(|(a, b)| a.description != b.description) {
+                                    "frame.pdus.order_or_description"
+                                } else {
+                                    "frame.pdus.signal_types"
                                 }
                                 .to_string();
                                 break;
@@ -143,10 +151,11 @@ impl Monitor for M {
                     }
                     ctx.violation("model.frame_map", &what, || detail(format!("{}: got {}\nexpected {}", what, trunc(&format!("{:?}", g.frame_map), 2500), trunc(&format!("{:?}", e.frame_map), 2500))));
                 }
-                if g.frame_map_with_key != e.frame_map_with_key {
+                let keyed_equal = g_keyed.len() == e.keyed.len() && e.keyed.iter().all(|(k, v)| g_keyed.get(k).map_or(false, |gv| same_frame(gv, v)));
+                if !keyed_equal {
                     ok = false;
-                    ctx.violation("model.frame_map_with_key", if g.frame_map_with_key.len() != e.frame_map_with_key.len() { "keys" } else { "values" }, || {
-                        detail(format!("got {}\nexpected {}", trunc(&format!("{:?}", g.frame_map_with_key), 2500), trunc(&format!("{:?}", e.frame_map_with_key), 2500)))
+                    ctx.violation("model.frame_map_with_key", if g_keyed.len() != e.keyed.len() { "keys" } else { "values" }, || {
+                        detail(format!("got {}\nexpected {}", trunc(&format!("{:?}", g.frame_map_with_key), 2500), trunc(&format!("{:?}", e.keyed), 2500)))
                     });
                 }
                 if ok {
@@ -166,7 +175,7 @@ impl Monitor for M {
                         }
                         ctx.eval();
                         match guarded(|| extract_metadata(&g, nr, None).cloned()) {
-                            Ok(Some(m)) if &m == meta => ctx.obs("ok.lookup_by_id"),
+                            Ok(Some(m)) if same_frame(&m, meta) => ctx.obs("ok.lookup_by_id"),
                             Ok(other) => ctx.violation("lookup.by_frame_id", "mismatch", || detail(format!("lookup of {} without extended header gave {:?}", id, other.map(|m| m.short_name)))),
                             Err(p) => ctx.panic_violation("lookup.no_panic", &p, || detail("extract_metadata".into())),
                         }
@@ -186,7 +195,12 @@ impl Monitor for M {
                         }
                     }
                 }
-                for (k, meta) in &e.frame_map_with_key {
+                for ((k_ctx, k_app, k_frame), meta) in &e.keyed {
+                    let k = FrameMetadataIdentification {
+                        context_id: k_ctx.clone(),
+                        app_id: k_app.clone(),
+                        frame_id: k_frame.clone(),
+                    };
                     if let Some(nr) = k.frame_id.strip_prefix("ID_").and_then(|s| s.parse::<u32>().ok()) {
                         if format!("ID_{}", nr) != k.frame_id {
                             continue;
@@ -200,7 +214,7 @@ impl Monitor for M {
                         };
                         ctx.eval();
                         match guarded(|| extract_metadata(&g, nr, Some(&eh)).cloned()) {
-                            Ok(Some(m)) if &m == meta => ctx.obs("ok.lookup_by_key"),
+                            Ok(Some(m)) if same_frame(&m, meta) => ctx.obs("ok.lookup_by_key"),
                             Ok(other) => ctx.violation("lookup.by_context_app_frame", "mismatch", || detail(format!("lookup of {:?} gave {:?}", k, other.map(|m| m.short_name)))),
                             Err(p) => ctx.panic_violation("lookup.no_panic", &p, || detail("extract_metadata".into())),
                         }
@@ -217,10 +231,10 @@ impl Monitor for M {
                                 context_id: short.context_id.clone(),
                                 ..eh.clone()
                             };
-                            let want = e.frame_map_with_key.get(&short);
+                            let want = e.keyed.get(&(short.context_id.clone(), short.app_id.clone(), short.frame_id.clone()));
                             ctx.eval();
                             match guarded(|| extract_metadata(&g, nr, Some(&eh3)).cloned()) {
-                                Ok(got3) if got3.as_ref() == want => ctx.obs("ok.lookup_with_truncated_ids"),
+                                Ok(got3) if (got3.is_none() && want.is_none()) || matches!((&got3, want), (Some(a), Some(b)) if same_frame(a, b)) => ctx.obs("ok.lookup_with_truncated_ids"),
                                 Ok(got3) => ctx.violation("lookup.by_context_app_frame", "truncated_ids", || detail(format!("lookup of {:?} gave {:?}, expected {:?}", short, got3.map(|m| m.short_name), want.map(|m| m.short_name.clone())))),
                                 Err(p) => ctx.panic_violation("lookup.no_panic", &p, || detail("extract_metadata".into())),
                             }
@@ -232,7 +246,7 @@ impl Monitor for M {
                                 app_id: k.context_id.clone(),
                                 frame_id: k.frame_id.clone(),
                             };
-                            if !e.frame_map_with_key.contains_key(&swapped) {
+                            if !e.keyed.contains_key(&(swapped.context_id.clone(), swapped.app_id.clone(), swapped.frame_id.clone())) {
                                 let eh2 = ExtendedHeader {
                                     application_id: k.context_id.clone(),
                                     context_id: k.app_id.clone(),
